@@ -356,6 +356,11 @@ class World:
         if r.model is not None:
             return "skipped:already-back"
         self.model.add_reactions([r])
+        if r.model is self.model:
+            # the object comes back with new columns: terms that user constraints had on its old columns (it may have been
+            # taken out inside the current context, where only the undo would bring them back) are not part of them
+            for name, (lb, ub, terms) in list(self.user["cons"].items()):
+                self.user["cons"][name] = (lb, ub, [(x, c) for x, c in terms if x is not r])
 
     def op_add_metabolites(self, op):
         from cobra import Metabolite
